@@ -557,6 +557,38 @@ pub fn emit_case_known(out: &mut dyn Write, group: &str, c: &Case, verbose: bool
         match &c.mode { Mode::Free(_) => "free", Mode::Ctl(_) => "ctl" },
         r.wall_us
     )?;
+    // ---- L4: the spawner replayed by the model on the has_more() values it saw (controlled runs:
+    // the value read by the hook is the one the decision used)
+    if let (Mode::Ctl(_), false) = (&c.mode, panicked) {
+        let lag = orx_parallel::verif::exports::constants()[0];
+        for run in &r.rec.runs {
+            let hms: Vec<String> = run
+                .points
+                .iter()
+                .filter(|p| p.0 != 2)
+                .map(|p| match p.2 {
+                    0 => "no".to_string(),
+                    1 => "maybe".to_string(),
+                    _ => format!("yes:{}", p.3),
+                })
+                .collect();
+            writeln!(
+                out,
+                "Q\tspawn {} {} {}:{} {} {}\tworkers={} calls={}",
+                match run.len {
+                    None => "-".to_string(),
+                    Some(n) => n.to_string(),
+                },
+                run.max_threads,
+                if run.exact { "exact" } else { "min" },
+                run.chunk,
+                lag,
+                if hms.is_empty() { "-".to_string() } else { hms.join(";") },
+                if run.worker_chunks.is_empty() { "-".to_string() } else { run.worker_chunks.iter().map(|x| x.to_string()).collect::<Vec<_>>().join(",") },
+                hms.len()
+            )?;
+        }
+    }
     if verbose {
         for run in &r.rec.runs {
             writeln!(out, "RUNINFO\t{:?}", run)?;
